@@ -36,7 +36,7 @@ TEXT = {
     "C07": dict(
         technique="stateful property-based testing (rapid histories without an acceptable Logon, pre-populated shared store); invariant over emitted message types",
         level_text="Exploration: histories that by construction never contain an acceptable Logon (resend requests over all ranges, test requests, heartbeats, logouts, refused/damaged Logons, application/unknown types, idle minutes) against an empty store and a store holding an earlier session's messages; every emitted message must be Logon, Logout or Reject and none may equal a stored message of the other session.",
-        level_note="Trusted: synctest and the type whitelist. The parallel-session variant (store being written while the unauthenticated connection runs) is not generated.",
+        level_note="Trusted: synctest and the type whitelist. A second engine runs the unauthenticated connection next to a live logged-on one on a real Acceptor with the shared store.",
         design_ref="DESIGN.md section 4, C07",
     ),
     "C08": dict(
